@@ -15,7 +15,7 @@ RULE = ('each case is one session (connect, shell family, list, stat, pull, push
         'instead corrupt one packet on the wire (byte flip, bit flip, unknown command word -- alone, with a payload that no longer matches its checksum, or with the payload withheld; all-zero payloads included) and demand '
         'InvalidChecksumError / InvalidCommandError. non-trivial = a header or payload was delivered in >= 2 reads, or a corruption fired')
 ASSUMPTIONS = ['a byte-sum checksum detects every single-byte and single-bit change, so the corruption oracle has no false negatives by construction']
-EXPECT_PROBES = {'all': ['hdr_split', 'payload_split', 'empty_reads', 'corrupt_payload', 'corrupt_cmd', 'corrupt_cmd_and_payload', 'corrupt_cmd_payload_withheld', 'corrupt_allzero_payload', 'noise_packet', 'corrupt_noise_packet']}
+EXPECT_PROBES = {'all': ['hdr_split', 'payload_split', 'empty_reads', 'corrupt_payload', 'corrupt_cmd', 'corrupt_cmd_and_payload', 'corrupt_cmd_magic_intact', 'corrupt_cmd_payload_withheld', 'corrupt_allzero_payload', 'noise_packet', 'corrupt_noise_packet']}
 KINDS = ['shell', 'exec_out', 'streaming_shell', 'list', 'stat', 'pull', 'push']
 OWN = ('wrong-result', 'unexpected-exception', 'timeout-instead-of-result', 'missing-exception', 'wrong-exception', 'hang', 'no-termination',
        'over-read', 'frag-differs', 'corrupt-delivered', 'corrupt-wrong-exception')
@@ -39,6 +39,8 @@ def generate(seed, tier):
         case['corrupt'] = {'pick': g.int(0, 1 << 30), 'kind': g.pick(['byte', 'bit', 'cmd', 'cmd']), 'off': g.int(0, 1 << 20), 'bitno': g.int(0, 7), 'delta': g.int(0, 253)}
         if g.chance(0.3):
             case['corrupt']['word'] = g.pick([0x59414b4e, 0x5a414b4f, 0x4e45504e, 0x4f4b4159, 0, 0xFFFFFFFF, 0x45545258, g.int(0, 0xFFFFFFFF)])
+        if case['corrupt']['kind'] == 'cmd' and g.chance(0.3):
+            case['corrupt']['keep_magic'] = True
         if case['corrupt']['kind'] == 'cmd' and g.chance(0.4):
             # the unknown command word must be rejected at the header, whatever the rest of that packet looks like
             case['corrupt']['payload'] = g.pick(['flip', 'withhold'])
@@ -102,6 +104,8 @@ def evaluate(case, tapes=None):
             s2['device']['corrupt']['word'] = cor['word']
         if cor.get('payload'):
             s2['device']['corrupt']['payload'] = cor['payload']
+        if cor.get('keep_magic'):
+            s2['device']['corrupt']['keep_magic'] = True
         c2 = dict(case)
         c2['scn_corrupt'] = s2
         run1, tape1 = run_scn(c2, 'scn_corrupt', 1, tapes, seed_idx=0)
